@@ -12,7 +12,7 @@ Definition init_val (k : initk) : val :=
   match k with
   | IInt => VInt 0 | IList => VList 0 [] | ITuple => VTuple 0 [] | IStr => VStr "" | IDict od => VDict 0 od [] end.
 
-Inductive foldop := OIadd | OAdd | OMul | OCount | OUpdate.
+Inductive foldop := OIadd | OAdd | OMul | OCount | OUpdate | OLast.
 
 (* iteration of a value as Python's iter() does it *)
 Definition iter_items (v : val) : res (list val) :=
@@ -58,6 +58,7 @@ Definition apply_op (o : foldop) (ret v : val) : res val :=
                | VDict i od acc, VDict _ _ kvs => Ok (VDict i od (kv_update acc kvs))
                | VDict _ _ _, (VNone | VBool _ | VInt _) => Raise (simple_exn "TypeError")
                | _, _ => Unmodelled "update" end
+  | OLast => Ok v                 (* a user op, lambda acc, v: v — whose result may be None like any other value *)
   end.
 
 (* Fold._fold / Merge._fold: ret = init(); for v in iterator: ret = op(ret, v) *)
